@@ -383,6 +383,40 @@ impl Elem for Nd {
     }
 }
 
+/// Zero-sized element WITHOUT drop glue whose `Default` and `Clone` calls are counted: selects the
+/// zero-sized *and* `needs_drop == false` code paths while keeping caller code observable.
+#[derive(Debug, PartialEq)]
+pub struct Zn;
+impl Clone for Zn {
+    fn clone(&self) -> Self {
+        if ledger::note_clone() {
+            std::panic::panic_any(Injected("clone"));
+        }
+        Zn
+    }
+}
+impl Default for Zn {
+    fn default() -> Self {
+        ledger::tick("default");
+        Zn
+    }
+}
+impl Elem for Zn {
+    const NAME: &'static str = "Zn";
+    const TRACKED: bool = false;
+    const ZST: bool = true;
+    const COUNTS_CLONES: bool = true;
+    fn make() -> Self {
+        Zn
+    }
+    fn is_clone_of(&self, _: &Self) -> bool {
+        true
+    }
+    fn ident(&self) -> u32 {
+        0
+    }
+}
+
 /// reset ledger and plain counters (start of every case)
 pub fn reset_all() {
     ledger::reset();
